@@ -57,6 +57,7 @@ func runC10(c *eng.Ctx) {
 		}
 		c.Touch(f)
 		info := f.Pkg.TypesInfo
+		sameObj := copyAliases(info, f.Decl.Body)
 		accum := func(g *eng.Graph) func(*eng.GNode) bool {
 			return func(n *eng.GNode) bool {
 				as, ok := n.Node.(*ast.AssignStmt)
@@ -71,8 +72,12 @@ func runC10(c *eng.Ctx) {
 				acc := eng.SelObj(info, as.Lhs[0])
 				ret := false
 				eng.InspectNoLit(f.Decl.Body, func(x ast.Node) bool {
-					if r, isR := x.(*ast.ReturnStmt); isR && len(r.Results) > 0 && eng.UsesObj(info, r.Results[len(r.Results)-1], acc, false) {
-						ret = true
+					if r, isR := x.(*ast.ReturnStmt); isR && len(r.Results) > 0 {
+						last := r.Results[len(r.Results)-1]
+						// returned directly, or through the copies an inlined helper hands its result over with
+						if eng.UsesObj(info, last, acc, false) || sameObj(eng.SelObj(info, last), acc) {
+							ret = true
+						}
 					}
 					return true
 				})
